@@ -4,13 +4,20 @@
 // Files: c08_test.go   the case format, the generic executor/oracle (runT), C08.enum and C08.rand
 //
 //	types_test.go    element types with special characteristics, C08.types, huge zero-size grids (C08.huge)
-//	big_test.go      C08.big: grids and rectangles around every power of two up to 2^17 (2^20) cells
+//	big_test.go      C08.big: grids and rectangles around every power of two up to 2^17 (2^20) cells, GOMAXPROCS varied
 //	extreme_test.go  C08.extreme: coordinates at the top/bottom of the int range, overflowing flat indices
+//	views_test.go    jagged inputs whose rows are views of one shared buffer / of another Array2D, rows with spare
+//	                 capacity (buildJagged), C08.views
+//	par_test.go      the row-wise executor for very large grids (runLean), C08.par: 2^18 .. 2^26 (2^27) cells with
+//	                 GOMAXPROCS 1, 2, 3, 5, 6, 7, 16
+//	many_test.go     C08.many: scripts repeated more than 2^16 times on one or two small arrays; C08.wrap32
+//	                 (thorough only): one cheap call repeated more than 2^32 times
 package c08
 
 import (
 	"fmt"
 	"os"
+	"runtime"
 	"strconv"
 	"strings"
 	"testing"
@@ -37,6 +44,33 @@ type Case struct {
 	T string `json:"t,omitempty"`
 	// FillV is the code of the value given to New2DFilled; 0 = the ordinary value 7.
 	FillV int `json:"fillv,omitempty"`
+	// ctor 2: when JagN > len(Jag) the list Jag is continued cyclically up to JagN rows (so tall inputs stay
+	// short in the case file); then row JagSet[i][0], if there is one, gets the length JagSet[i][1].
+	JagN   int      `json:"jagn,omitempty"`
+	JagSet [][2]int `json:"jagset,omitempty"`
+	// ctor 2 without View: every row is allocated with this much spare capacity, and the spare part holds other values.
+	Spare int `json:"spare,omitempty"`
+	// ctor 2: the jagged rows are views of ONE shared buffer (see views_test.go).
+	View *View `json:"view,omitempty"`
+	// Two: a second, independent array lives next to the first; OpSwitch moves the script from one to the other.
+	// Whatever is done to one of them must leave the other (and its windows, clones, String results) alone.
+	Two *Second `json:"two,omitempty"`
+	// Loop: the script is run Loop+1 times in a row (values stay fresh), e.g. 2^16 + a few times.
+	Loop int `json:"loop,omitempty"`
+	// Procs > 0: the case runs with runtime.GOMAXPROCS(Procs) (restored afterwards).
+	Procs int `json:"procs,omitempty"`
+	// Lean: the case is executed by the row-wise executor for very large grids (par_test.go).
+	Lean bool `json:"lean,omitempty"`
+}
+
+// Second describes the second array of a case.
+type Second struct {
+	W int `json:"w"`
+	H int `json:"h"`
+	// 0 New2D, 1 New2DFilled, 2 New2DFromJagged(W, H, [first.Row(0), first.Row(1), ...]): the live windows of
+	// the first array are the jagged input, so the second array starts as a copy of the common part.
+	Ctor  int `json:"ctor"`
+	FillV int `json:"fillv,omitempty"`
 }
 
 // Op kinds.
@@ -49,10 +83,12 @@ const (
 	OpClone          // Clone; B even: keep working on the original, the clone becomes a frozen witness; B odd: the other way round
 	OpString         // String
 	OpDims           // Width, Height
+	OpSwitch         // continue on the other array of the case (Case.Two); nothing happens when there is none
+	OpGC             // runtime.GC() in the middle of the history
 	nOps
 )
 
-var opName = [nOps]string{"Set", "Get", "Row", "RowSpan", "Fill", "Clone", "String", "Dims"}
+var opName = [nOps]string{"Set", "Get", "Row", "RowSpan", "Fill", "Clone", "String", "Dims", "Switch", "GC"}
 
 type Op struct {
 	K  int `json:"k"`
@@ -65,17 +101,20 @@ type Op struct {
 }
 
 const rule = "case = shape (w,h >= 0), element type, constructor (New2D / New2DFilled with an ordinary or a special value such as the zero value / " +
-	"New2DFromJagged with rows shorter, longer, more, fewer, nil; the jagged input is overwritten by the caller afterwards), " +
-	"then a script of Set/Get/Row/RowSpan/Fill/Clone/String/Width+Height with coordinates inside and outside the bounds; oracle = " +
+	"New2DFromJagged with rows shorter, longer, more, fewer, nil - separately allocated, optionally with spare capacity holding other values, or VIEWS OF ONE SHARED BUFFER " +
+	"(sub-slices of a flat slice or Row/RowSpan windows of another Array2D, in order, exchanged, repeated, overlapping, shifted); the jagged input is overwritten by the caller afterwards), " +
+	"optionally a SECOND live array of another or the same shape (New2D / New2DFilled / New2DFromJagged from the Row windows of the first), optionally runtime.GOMAXPROCS(n) for the case, " +
+	"then a script (optionally repeated) of Set/Get/Row/RowSpan/Fill/Clone/String/Width+Height/switch-to-the-other-array/runtime.GC() with coordinates inside and outside the bounds; oracle = " +
 	"flat cell model with a fresh unique value per write (or a special value of the element type: zero value, -0.0, nil, ...); " +
-	"after the constructor and after EVERY operation Get over the whole grid " +
-	"must equal the model (so a write that aliases another cell, or a panic that altered the array, is seen at once); out-of-bounds " +
+	"after the constructor and after EVERY operation Get over the whole grid - of the array worked on AND of the other array - " +
+	"must equal the model (so a write that aliases another cell or another array, or a panic that altered the array, is seen at once); out-of-bounds " +
 	"coordinate => must panic and leave the grid unchanged; Row/RowSpan: length, contents, every element written through the slice " +
 	"(then whole grid compared), then every cell of the window Set and seen through the slice, and the last three returned slices are " +
 	"kept and must stay live windows after every later operation; Fill = inclusive rectangle whichever " +
 	"corners; Clone: the side not worked on is a frozen witness compared cell by cell after every later mutation; String == model " +
-	"rendered [[a b] [c d]] (cells as fmt.Sprint) at the end of every case of at most 1024 cells (and wherever the script has a String operation). non-trivial = w != h, both >= 2, " +
-	"and at least one successful write in the last row and one in the last column"
+	"rendered [[a b] [c d]] (cells as fmt.Sprint) at the end of every case of at most 1024 cells (and wherever the script has a String operation), and the last two strings returned " +
+	"are kept and must still read the same after every later operation. non-trivial = w != h, both >= 2, " +
+	"and at least one successful write in the last row and one in the last column of the first array"
 
 // maxCells bounds the grids the executor accepts (the whole grid is read back after every operation).
 const maxCells = 1 << 22
@@ -150,6 +189,18 @@ func diff[T any](a arrays.Array2D[T], m *model[T], d *desc[T]) (msg string) {
 			}
 			return
 		}
+		if ab, ok := any(a).(arrays.Array2D[uint8]); ok { // likewise (the large grids of C08.par have 1-byte cells)
+			cells := any(m).(*model[uint8]).cells
+			for y = 0; y < m.h; y++ {
+				for x = 0; x < m.w; x++ {
+					if got := ab.Get(x, y); got != cells[y*m.w+x] {
+						msg = fmt.Sprintf("Get(%d,%d) = %v, want %v", x, y, got, cells[y*m.w+x])
+						return
+					}
+				}
+			}
+			return
+		}
 		for y = 0; y < m.h; y++ {
 			for x = 0; x < m.w; x++ {
 				if got := a.Get(x, y); !d.eq(got, m.cells[y*m.w+x]) {
@@ -169,14 +220,15 @@ type witness[T any] struct {
 	a    arrays.Array2D[T]
 	m    *model[T]
 	step int
-	orig bool // the original is the witness, the script continued on the clone
+	orig bool   // the original is the witness, the script continued on the clone
+	pfx  string // "B." for the second array of the case
 }
 
 func (w witness[T]) what() string {
 	if w.orig {
-		return fmt.Sprintf("original (cloned at step %d, script continued on the clone)", w.step)
+		return fmt.Sprintf("original (cloned by %sClone() at step %d, script continued on the clone)", w.pfx, w.step)
 	}
-	return fmt.Sprintf("clone taken at step %d", w.step)
+	return fmt.Sprintf("clone taken by %sClone() at step %d", w.pfx, w.step)
 }
 
 // kept is a slice returned earlier by Row/RowSpan; it must remain a live window of the array it was taken from.
@@ -186,13 +238,14 @@ type kept[T any] struct {
 	x1, x2, y int
 	row       bool
 	step      int
+	pfx       string
 }
 
 func (k kept[T]) what() string {
 	if k.row {
-		return fmt.Sprintf("Row(%d) at step %d", k.y, k.step)
+		return fmt.Sprintf("%sRow(%d) at step %d", k.pfx, k.y, k.step)
 	}
-	return fmt.Sprintf("RowSpan(%d,%d,%d) at step %d", k.x1, k.x2, k.y, k.step)
+	return fmt.Sprintf("%sRowSpan(%d,%d,%d) at step %d", k.pfx, k.x1, k.x2, k.y, k.step)
 }
 
 // jagCode is the value code of element col of jagged row r.
@@ -200,6 +253,9 @@ func jagCode(r, c int) int { return 2_000_000_000 + 1_000_003*r + c }
 
 // runners maps Case.T to the executor instantiated for that element type.
 var runners = map[string]func(Case) pbt.Outcome{}
+
+// leanRunners maps Case.T to the row-wise executor for very large grids (Case.Lean).
+var leanRunners = map[string]func(Case) pbt.Outcome{}
 
 // nspecials maps Case.T to the number of special values of the type.
 var nspecials = map[string]int{}
@@ -212,6 +268,7 @@ func regType[T any](name string, mk func() *desc[T]) {
 		panic("c08: duplicate element type " + name)
 	}
 	runners[name] = func(c Case) pbt.Outcome { return runT(c, mk()) }
+	leanRunners[name] = func(c Case) pbt.Outcome { return runLean(c, mk()) }
 	nspecials[name] = mk().nspecial
 	typeOrder = append(typeOrder, name)
 }
@@ -219,16 +276,45 @@ func regType[T any](name string, mk func() *desc[T]) {
 // Run executes one case on the element type it names.
 func Run(c Case) pbt.Outcome {
 	r, ok := runners[c.T]
+	if c.Lean {
+		r, ok = leanRunners[c.T]
+	}
 	if !ok {
 		return pbt.Outcome{Skipped: true}
 	}
-	return r(c)
+	if c.Procs > 0 && c.Procs <= 256 {
+		defer runtime.GOMAXPROCS(runtime.GOMAXPROCS(c.Procs))
+	}
+	out := r(c)
+	if c.Procs > 0 && c.Procs <= 256 {
+		out.Labels = append(out.Labels, "GOMAXPROCS:"+strconv.Itoa(c.Procs))
+	}
+	return out
+}
+
+// side is an array of the case the script is currently NOT working on.
+type side[T any] struct {
+	a     arrays.Array2D[T]
+	m     *model[T]
+	w, h  int
+	shape string
+	pfx   string
+}
+
+// keptStr is a result of String that the caller still holds.
+type keptStr struct {
+	s, want string
+	what    string
 }
 
 func runT[T any](c Case, d *desc[T]) pbt.Outcome {
 	out := pbt.Outcome{}
 	w, h := c.W, c.H
 	if w < 0 || h < 0 || w > maxCells || h > maxCells || w*h > maxCells {
+		out.Skipped = true
+		return out
+	}
+	if t := c.Two; t != nil && (t.W < 0 || t.H < 0 || t.W > maxCells || t.H > maxCells || t.W*t.H > maxCells) {
 		out.Skipped = true
 		return out
 	}
@@ -244,7 +330,7 @@ func runT[T any](c Case, d *desc[T]) pbt.Outcome {
 	var a arrays.Array2D[T]
 	var ctor string
 	var p any
-	var jag [][]T
+	var jin *jagInput[T]
 	switch mod(c.Ctor, 3) {
 	case 0:
 		ctor = fmt.Sprintf("New2D(%d,%d)", w, h)
@@ -270,57 +356,21 @@ func runT[T any](c Case, d *desc[T]) pbt.Outcome {
 			lab("ctor:New2DFilled(special value)")
 		}
 	case 2:
-		jag = make([][]T, len(c.Jag))
-		more, fewer, longer, shorter, nilrow := len(c.Jag) > h, len(c.Jag) < h, false, false, false
-		total := 0
-		for r, n := range c.Jag {
-			if n < 0 {
-				nilrow = true
-				if r < h && w > 0 {
-					shorter = true
-				}
-				continue
-			}
-			if total+n > 2*maxCells {
-				n = 0
-			}
-			total += n
-			jag[r] = make([]T, n)
-			for x := range jag[r] {
-				jag[r][x] = d.val(jagCode(r, x))
-				if r < h && x < w {
-					m.cells[r*w+x] = jag[r][x]
-				}
-			}
-			if n > w {
-				longer = true
-			}
-			if n < w && r < h {
-				shorter = true
-			}
+		jin = buildJagged(c, w, h, d.val, m, 2*maxCells)
+		if jin == nil {
+			out.Skipped = true
+			return out
 		}
-		if len(c.Jag) <= 20 {
-			ctor = fmt.Sprintf("New2DFromJagged(%d,%d, rows with lengths %v (-1 = nil))", w, h, c.Jag)
-		} else {
-			ctor = fmt.Sprintf("New2DFromJagged(%d,%d, %d rows with lengths %v... (-1 = nil))", w, h, len(c.Jag), c.Jag[:20])
-		}
+		ctor = fmt.Sprintf("New2DFromJagged(%d,%d, %s)", w, h, jin.text)
 		p = try(func() {
 			if d.jag != nil {
-				a = d.jag(w, h, jag)
+				a = d.jag(w, h, jin.rows)
 			} else {
-				a = arrays.New2DFromJagged(w, h, jag)
+				a = arrays.New2DFromJagged(w, h, jin.rows)
 			}
 		})
 		lab("ctor:New2DFromJagged")
-		for _, x := range []struct {
-			on bool
-			l  string
-		}{{more, "jag:more-rows"}, {fewer, "jag:fewer-rows"}, {!more && !fewer, "jag:exact-rows"}, {longer, "jag:row-longer"},
-			{shorter, "jag:row-shorter"}, {nilrow, "jag:nil-row"}, {len(c.Jag) == 0, "jag:no-rows"}} {
-			if x.on {
-				lab(x.l)
-			}
-		}
+		out.Labels = append(out.Labels, jin.labels...)
 	}
 	if p != nil {
 		return pbt.Fail("%s (element type %s) panicked: %v", ctor, typeName(d), p)
@@ -331,16 +381,9 @@ func runT[T any](c Case, d *desc[T]) pbt.Outcome {
 	if df := diff(a, m, d); df != "" {
 		return pbt.Fail("%s (element type %s): %s", ctor, typeName(d), df)
 	}
-	if jag != nil {
+	if jin != nil {
 		// the array has its own cells: the caller may reuse the jagged input
-		n := 0
-		for r := range jag {
-			for x := range jag[r] {
-				jag[r][x] = d.val(900_000_000 + n)
-				n++
-			}
-		}
-		if n > 0 {
+		if jin.overwrite(d.val) > 0 {
 			if df := diff(a, m, d); df != "" {
 				return pbt.Fail("%s (element type %s), then the caller overwrote the jagged input: the array changed: %s", ctor, typeName(d), df)
 			}
@@ -373,6 +416,75 @@ func runT[T any](c Case, d *desc[T]) pbt.Outcome {
 
 	next := 1000
 	fresh := func() int { next++; return next }
+
+	// the second array of the case
+	var other *side[T]
+	pfx := "" // prefix of the calls in messages: "" = first array, "B." = second array
+	onFirst := true
+	if t := c.Two; t != nil {
+		o := &side[T]{w: t.W, h: t.H, pfx: "B.", m: &model[T]{w: t.W, h: t.H, cells: make([]T, t.W*t.H)}}
+		o.shape = fmt.Sprintf("%dx%d (B, the second array of the case)", t.W, t.H)
+		var ctor2 string
+		var p any
+		switch mod(t.Ctor, 3) {
+		case 0:
+			ctor2 = fmt.Sprintf("New2D(%d,%d)", t.W, t.H)
+			p = try(func() { o.a = arrays.New2D[T](t.W, t.H) })
+			lab("two:New2D")
+		case 1:
+			code := t.FillV
+			if code == 0 {
+				code = 9
+			}
+			v := d.val(code)
+			ctor2 = fmt.Sprintf("New2DFilled(%d,%d,%s)", t.W, t.H, valName(code, v))
+			for i := range o.m.cells {
+				o.m.cells[i] = v
+			}
+			p = try(func() { o.a = arrays.New2DFilled(t.W, t.H, v) })
+			lab("two:New2DFilled")
+		case 2:
+			ctor2 = fmt.Sprintf("New2DFromJagged(%d,%d, the rows Row(0..%d) of the first array)", t.W, t.H, h-1)
+			rows := make([][]T, h)
+			for y := range rows {
+				rows[y] = a.Row(y)
+				if y < t.H {
+					copy(o.m.cells[y*t.W:(y+1)*t.W], m.cells[y*w:(y+1)*w])
+				}
+			}
+			p = try(func() {
+				if d.jag != nil {
+					o.a = d.jag(t.W, t.H, rows)
+				} else {
+					o.a = arrays.New2DFromJagged(t.W, t.H, rows)
+				}
+			})
+			lab("two:New2DFromJagged(rows of the first array)")
+		}
+		ctor += "; B = " + ctor2
+		if p != nil {
+			return pbt.Fail("%s (element type %s): the constructor of B panicked: %v", ctor, typeName(d), p)
+		}
+		if o.a.Width() != t.W || o.a.Height() != t.H {
+			return pbt.Fail("%s: B has Width,Height = %d,%d", ctor, o.a.Width(), o.a.Height())
+		}
+		if df := diff(o.a, o.m, d); df != "" {
+			return pbt.Fail("%s (element type %s): B: %s", ctor, typeName(d), df)
+		}
+		if df := diff(a, m, d); df != "" {
+			return pbt.Fail("%s (element type %s): building B changed the first array: %s", ctor, typeName(d), df)
+		}
+		other = o
+		switch {
+		case t.W == w && t.H == h:
+			lab("two:same-shape")
+		case t.W*t.H == w*h:
+			lab("two:same-cell-count,other-shape")
+		default:
+			lab("two:other-cell-count")
+		}
+	}
+
 	// value of a Set/Fill: fresh unless the op asks for a special value
 	opValue := func(op Op) (T, int) {
 		code := op.V
@@ -385,6 +497,9 @@ func runT[T any](c Case, d *desc[T]) pbt.Outcome {
 	}
 	lastRow, lastCol := false, false
 	wrote := func(x1, y1, x2, y2 int) { // inclusive, sorted
+		if !onFirst {
+			return
+		}
 		if y2 == h-1 {
 			lastRow = true
 		}
@@ -394,6 +509,7 @@ func runT[T any](c Case, d *desc[T]) pbt.Outcome {
 	}
 	var wits []witness[T]
 	var keeps []kept[T]
+	var strs []keptStr
 	// the history is rendered only when a message needs it
 	var calls []func() string
 	history := func() string {
@@ -411,6 +527,12 @@ func runT[T any](c Case, d *desc[T]) pbt.Outcome {
 		if df := diff(a, m, d); df != "" {
 			return fmt.Sprintf("%s array, step %d, after %s: %s; history: %s", shape, step, callf(), df, history())
 		}
+		if other != nil {
+			if df := diff(other.a, other.m, d); df != "" {
+				return fmt.Sprintf("%s array, step %d, after %s: the OTHER array of the case (%s), which the call does not concern, changed: %s; history: %s",
+					shape, step, callf(), other.shape, df, history())
+			}
+		}
 		for _, wt := range wits {
 			if df := diff(wt.a, wt.m, d); df != "" {
 				return fmt.Sprintf("%s array, step %d, after %s on the other side: the %s changed: %s; history: %s", shape, step, callf(), wt.what(), df, history())
@@ -418,266 +540,336 @@ func runT[T any](c Case, d *desc[T]) pbt.Outcome {
 		}
 		for _, k := range keeps {
 			for i := range k.win {
-				if !d.eq(k.win[i], k.m.cells[k.y*w+k.x1+i]) {
+				if !d.eq(k.win[i], k.m.cells[k.y*k.m.w+k.x1+i]) {
 					return fmt.Sprintf("%s array, step %d, after %s: the slice returned earlier by %s is no longer a live window: slice[%d] = %v, cell (%d,%d) = %v; history: %s",
-						shape, step, callf(), k.what(), i, k.win[i], k.x1+i, k.y, k.m.cells[k.y*w+k.x1+i], history())
+						shape, step, callf(), k.what(), i, k.win[i], k.x1+i, k.y, k.m.cells[k.y*k.m.w+k.x1+i], history())
 				}
+			}
+		}
+		for _, ks := range strs {
+			if ks.s != ks.want {
+				return fmt.Sprintf("%s array, step %d, after %s: the string returned earlier by %s has changed: it was %s and now reads %s; history: %s",
+					shape, step, callf(), ks.what, clip(ks.want), clip(ks.s), history())
 			}
 		}
 		return ""
 	}
-
-	for step, op := range c.Ops {
-		k := mod(op.K, int(nOps))
-		var callf func() string // built only when a message or the history needs it
-		fail := func(format string, args ...any) pbt.Outcome {
-			return pbt.Fail("%s array, step %d, %s: %s; history: %s", shape, step, callf(), fmt.Sprintf(format, args...), history())
+	keepStr := func(s, want, what string) {
+		if len(strs) >= 2 {
+			strs = strs[1:]
 		}
-		switch k {
-		case OpSet:
-			x, y := op.X1, op.Y1
-			v, code := opValue(op)
-			callf = func() string { return fmt.Sprintf("Set(%d,%d,%s)", x, y, valName(code, v)) }
-			p := try(func() { a.Set(x, y, v) })
-			if m.inX(x) && m.inY(y) {
-				if p != nil {
-					return fail("panicked inside the bounds: %v", p)
-				}
-				m.cells[y*w+x] = v
-				wrote(x, y, x, y)
-				lab("Set:in")
-			} else {
-				if p == nil {
-					return fail("did not panic although the coordinate is outside the bounds")
-				}
-				oobLabels(&out, "Set", w, h, []int{x}, []int{y})
+		strs = append(strs, keptStr{s: s, want: want, what: what})
+	}
+
+	loops := c.Loop
+	if loops < 0 {
+		loops = 0
+	}
+	if loops > 1<<20 {
+		loops = 1 << 20
+	}
+	if loops > 0 && len(c.Ops) > 0 {
+		switch n := (loops + 1) * len(c.Ops); {
+		case loops >= 1<<16:
+			lab("loop:script-run-more-than-2^16-times")
+		case n > 1<<16:
+			lab("loop:more-than-2^16-calls")
+		default:
+			lab("loop:<=2^16-calls")
+		}
+	}
+	step := -1
+	for it := 0; it <= loops; it++ {
+		for _, op := range c.Ops {
+			step++
+			k := mod(op.K, int(nOps))
+			var callf0 func() string // built only when a message or the history needs it
+			pf := pfx
+			callf := func() string { return pf + callf0() }
+			fail := func(format string, args ...any) pbt.Outcome {
+				return pbt.Fail("%s array, step %d, %s: %s; history: %s", shape, step, callf(), fmt.Sprintf(format, args...), history())
 			}
-		case OpGet:
-			x, y := op.X1, op.Y1
-			callf = func() string { return fmt.Sprintf("Get(%d,%d)", x, y) }
-			var got T
-			p := try(func() { got = a.Get(x, y) })
-			if m.inX(x) && m.inY(y) {
-				if p != nil {
-					return fail("panicked inside the bounds: %v", p)
-				}
-				if !d.eq(got, m.cells[y*w+x]) {
-					return fail("= %v, want %v", got, m.cells[y*w+x])
-				}
-				lab("Get:in")
-			} else {
-				if p == nil {
-					return fail("did not panic although the coordinate is outside the bounds (returned %v)", got)
-				}
-				oobLabels(&out, "Get", w, h, []int{x}, []int{y})
-			}
-		case OpRow, OpRowSpan:
-			y := op.Y1
-			x1, x2 := 0, w-1
-			var win []T
-			var p any
-			valid := m.inY(y)
-			if k == OpRow {
-				callf = func() string { return fmt.Sprintf("Row(%d)", y) }
-				p = try(func() { win = a.Row(y) })
-			} else {
-				x1, x2 = op.X1, op.X2
-				if m.inX(x1) && m.inX(x2) && x1 > x2 {
-					x1, x2 = x2, x1
-				}
-				valid = valid && m.inX(x1) && m.inX(x2)
-				callf = func() string { return fmt.Sprintf("RowSpan(%d,%d,%d)", x1, x2, y) }
-				p = try(func() { win = a.RowSpan(x1, x2, y) })
-			}
-			if !valid {
-				if p == nil {
-					return fail("did not panic although a coordinate is outside the bounds (returned a slice of length %d)", len(win))
-				}
-				if k == OpRow {
-					oobLabels(&out, "Row", w, h, nil, []int{y})
+			switch k {
+			case OpSet:
+				x, y := op.X1, op.Y1
+				v, code := opValue(op)
+				callf0 = func() string { return fmt.Sprintf("Set(%d,%d,%s)", x, y, valName(code, v)) }
+				p := try(func() { a.Set(x, y, v) })
+				if m.inX(x) && m.inY(y) {
+					if p != nil {
+						return fail("panicked inside the bounds: %v", p)
+					}
+					m.cells[y*w+x] = v
+					wrote(x, y, x, y)
+					lab("Set:in")
 				} else {
-					oobLabels(&out, "RowSpan", w, h, []int{op.X1, op.X2}, []int{y})
+					if p == nil {
+						return fail("did not panic although the coordinate is outside the bounds")
+					}
+					oobLabels(&out, "Set", w, h, []int{x}, []int{y})
 				}
-				break
-			}
-			if p != nil {
-				return fail("panicked inside the bounds: %v", p)
-			}
-			if len(win) != x2-x1+1 {
-				return fail("returned a slice of length %d, want %d", len(win), x2-x1+1)
-			}
-			for i := range win {
-				if !d.eq(win[i], m.cells[y*w+x1+i]) {
-					return fail("slice[%d] = %v, want cell (%d,%d) = %v", i, win[i], x1+i, y, m.cells[y*w+x1+i])
+			case OpGet:
+				x, y := op.X1, op.Y1
+				callf0 = func() string { return fmt.Sprintf("Get(%d,%d)", x, y) }
+				var got T
+				p := try(func() { got = a.Get(x, y) })
+				if m.inX(x) && m.inY(y) {
+					if p != nil {
+						return fail("panicked inside the bounds: %v", p)
+					}
+					if !d.eq(got, m.cells[y*w+x]) {
+						return fail("= %v, want %v", got, m.cells[y*w+x])
+					}
+					lab("Get:in")
+				} else {
+					if p == nil {
+						return fail("did not panic although the coordinate is outside the bounds (returned %v)", got)
+					}
+					oobLabels(&out, "Get", w, h, []int{x}, []int{y})
 				}
+			case OpRow, OpRowSpan:
+				y := op.Y1
+				x1, x2 := 0, w-1
+				var win []T
+				var p any
+				valid := m.inY(y)
+				if k == OpRow {
+					callf0 = func() string { return fmt.Sprintf("Row(%d)", y) }
+					p = try(func() { win = a.Row(y) })
+				} else {
+					x1, x2 = op.X1, op.X2
+					if m.inX(x1) && m.inX(x2) && x1 > x2 {
+						x1, x2 = x2, x1
+					}
+					valid = valid && m.inX(x1) && m.inX(x2)
+					callf0 = func() string { return fmt.Sprintf("RowSpan(%d,%d,%d)", x1, x2, y) }
+					p = try(func() { win = a.RowSpan(x1, x2, y) })
+				}
+				if !valid {
+					if p == nil {
+						return fail("did not panic although a coordinate is outside the bounds (returned a slice of length %d)", len(win))
+					}
+					if k == OpRow {
+						oobLabels(&out, "Row", w, h, nil, []int{y})
+					} else {
+						oobLabels(&out, "RowSpan", w, h, []int{op.X1, op.X2}, []int{y})
+					}
+					break
+				}
+				if p != nil {
+					return fail("panicked inside the bounds: %v", p)
+				}
+				if len(win) != x2-x1+1 {
+					return fail("returned a slice of length %d, want %d", len(win), x2-x1+1)
+				}
+				for i := range win {
+					if !d.eq(win[i], m.cells[y*w+x1+i]) {
+						return fail("slice[%d] = %v, want cell (%d,%d) = %v", i, win[i], x1+i, y, m.cells[y*w+x1+i])
+					}
+				}
+				// write through every element of the window: exactly those cells change
+				for i := range win {
+					v := d.val(fresh())
+					win[i] = v
+					m.cells[y*w+x1+i] = v
+				}
+				if len(win) > 0 {
+					wrote(x1, y, x2, y)
+				}
+				if df := verify(step, func() string { return callf() + " and writing every element of the returned slice" }); df != "" {
+					return pbt.Fail("%s", df)
+				}
+				// Set on the array is seen through the slice
+				for i := range win {
+					code := fresh()
+					v := d.val(code)
+					if p := try(func() { a.Set(x1+i, y, v) }); p != nil {
+						return fail("then Set(%d,%d,%s) panicked inside the bounds: %v", x1+i, y, valName(code, v), p)
+					}
+					m.cells[y*w+x1+i] = v
+					if !d.eq(win[i], v) {
+						return fail("slice is not a live window: after Set(%d,%d,%s) slice[%d] = %v", x1+i, y, valName(code, v), i, win[i])
+					}
+				}
+				if len(win) > 0 {
+					if len(keeps) >= 3 {
+						keeps = keeps[1:]
+					}
+					keeps = append(keeps, kept[T]{win: win, m: m, x1: x1, y: y, row: k == OpRow, x2: x2, step: step, pfx: pfx})
+					lab("window:kept-and-rechecked-later")
+				}
+				switch {
+				case k == OpRow:
+					lab("Row:in")
+				case x1 == 0 && x2 == w-1:
+					lab("RowSpan:whole-row")
+				case x1 == x2:
+					lab("RowSpan:single-cell")
+				default:
+					lab("RowSpan:partial")
+				}
+			case OpFill:
+				x1, y1, x2, y2 := op.X1, op.Y1, op.X2, op.Y2
+				v, code := opValue(op)
+				fx1, fy1, fx2, fy2 := x1, y1, x2, y2
+				callf0 = func() string { return fmt.Sprintf("Fill(%d,%d,%d,%d,%s)", fx1, fy1, fx2, fy2, valName(code, v)) }
+				p := try(func() { a.Fill(x1, y1, x2, y2, v) })
+				if m.inX(x1) && m.inX(x2) && m.inY(y1) && m.inY(y2) {
+					if p != nil {
+						return fail("panicked although all corners are inside the bounds: %v", p)
+					}
+					switch {
+					case x1 > x2 && y1 > y2:
+						lab("Fill:both-swapped")
+					case x1 > x2:
+						lab("Fill:x-swapped")
+					case y1 > y2:
+						lab("Fill:y-swapped")
+					default:
+						lab("Fill:sorted")
+					}
+					if x1 > x2 {
+						x1, x2 = x2, x1
+					}
+					if y1 > y2 {
+						y1, y2 = y2, y1
+					}
+					for y := y1; y <= y2; y++ {
+						for x := x1; x <= x2; x++ {
+							m.cells[y*w+x] = v
+						}
+					}
+					wrote(x1, y1, x2, y2)
+					switch {
+					case x1 == x2 && y1 == y2:
+						lab("Fill:single-cell")
+					case x1 == 0 && y1 == 0 && x2 == w-1 && y2 == h-1:
+						lab("Fill:whole-grid")
+					case y1 == y2:
+						lab("Fill:one-row")
+					case x1 == x2:
+						lab("Fill:one-column")
+					default:
+						lab("Fill:proper-rectangle")
+					}
+					switch n := x2 - x1 + 1; {
+					case n > 4096:
+						lab("Fill:row-width>4096")
+					case n > 256:
+						lab("Fill:row-width 257..4096")
+					case n > 32:
+						lab("Fill:row-width 33..256")
+					}
+				} else {
+					if p == nil {
+						return fail("did not panic although a corner is outside the bounds")
+					}
+					oobLabels(&out, "Fill", w, h, []int{x1, x2}, []int{y1, y2})
+				}
+			case OpClone:
+				callf0 = func() string { return "Clone()" }
+				var cl arrays.Array2D[T]
+				if p := try(func() { cl = a.Clone() }); p != nil {
+					return fail("panicked: %v", p)
+				}
+				if cl.Width() != w || cl.Height() != h {
+					return fail("clone has Width,Height = %d,%d", cl.Width(), cl.Height())
+				}
+				if df := diff(cl, m, d); df != "" {
+					return fail("clone differs from the original: %s", df)
+				}
+				if len(wits) >= 2 {
+					wits = wits[1:]
+				}
+				if mod(op.B, 2) == 0 {
+					wits = append(wits, witness[T]{a: cl, m: m.clone(), step: step, pfx: pfx})
+					lab("Clone:continue-on-original")
+				} else {
+					wm := m.clone()
+					wits = append(wits, witness[T]{a: a, m: wm, step: step, orig: true, pfx: pfx})
+					// slices taken from the original stay windows of the original
+					for i := range keeps {
+						if keeps[i].m == m {
+							keeps[i].m = wm
+						}
+					}
+					a = cl
+					lab("Clone:continue-on-clone")
+				}
+			case OpString:
+				callf0 = func() string { return "String()" }
+				var s string
+				if p := try(func() { s = a.String() }); p != nil {
+					return fail("panicked: %v", p)
+				}
+				want := m.String()
+				if s != want {
+					return fail("= %s, want %s", clip(s), clip(want))
+				}
+				keepStr(s, want, fmt.Sprintf("%sString() at step %d", pfx, step))
+				lab("String")
+			case OpDims:
+				callf0 = func() string { return "Width(),Height()" }
+				if a.Width() != w || a.Height() != h {
+					return fail("= %d,%d", a.Width(), a.Height())
+				}
+				lab("Dims")
+			case OpSwitch:
+				if other == nil {
+					callf0 = func() string { return "(no second array to switch to)" }
+					lab("Switch:no-second-array")
+					break
+				}
+				callf0 = func() string { return "(the script moves to the other array)" }
+				o := &side[T]{a: a, m: m, w: w, h: h, shape: shape, pfx: pfx}
+				a, m, w, h, shape, pfx = other.a, other.m, other.w, other.h, other.shape, other.pfx
+				other = o
+				onFirst = !onFirst
+				lab("Switch")
+			case OpGC:
+				callf0 = func() string { return "runtime.GC()" }
+				runtime.GC()
+				lab("GC")
 			}
-			// write through every element of the window: exactly those cells change
-			for i := range win {
-				v := d.val(fresh())
-				win[i] = v
-				m.cells[y*w+x1+i] = v
-			}
-			if len(win) > 0 {
-				wrote(x1, y, x2, y)
-			}
-			if df := verify(step, func() string { return callf() + " and writing every element of the returned slice" }); df != "" {
+			out.Evals++
+			if df := verify(step, callf); df != "" {
 				return pbt.Fail("%s", df)
 			}
-			// Set on the array is seen through the slice
-			for i := range win {
-				code := fresh()
-				v := d.val(code)
-				if p := try(func() { a.Set(x1+i, y, v) }); p != nil {
-					return fail("then Set(%d,%d,%s) panicked inside the bounds: %v", x1+i, y, valName(code, v), p)
-				}
-				m.cells[y*w+x1+i] = v
-				if !d.eq(win[i], v) {
-					return fail("slice is not a live window: after Set(%d,%d,%s) slice[%d] = %v", x1+i, y, valName(code, v), i, win[i])
-				}
+			if len(calls) < 40 {
+				calls = append(calls, callf)
 			}
-			if len(win) > 0 {
-				if len(keeps) >= 3 {
-					keeps = keeps[1:]
-				}
-				keeps = append(keeps, kept[T]{win: win, m: m, x1: x1, y: y, row: k == OpRow, x2: x2, step: step})
-				lab("window:kept-and-rechecked-later")
-			}
-			switch {
-			case k == OpRow:
-				lab("Row:in")
-			case x1 == 0 && x2 == w-1:
-				lab("RowSpan:whole-row")
-			case x1 == x2:
-				lab("RowSpan:single-cell")
-			default:
-				lab("RowSpan:partial")
-			}
-		case OpFill:
-			x1, y1, x2, y2 := op.X1, op.Y1, op.X2, op.Y2
-			v, code := opValue(op)
-			fx1, fy1, fx2, fy2 := x1, y1, x2, y2
-			callf = func() string { return fmt.Sprintf("Fill(%d,%d,%d,%d,%s)", fx1, fy1, fx2, fy2, valName(code, v)) }
-			p := try(func() { a.Fill(x1, y1, x2, y2, v) })
-			if m.inX(x1) && m.inX(x2) && m.inY(y1) && m.inY(y2) {
-				if p != nil {
-					return fail("panicked although all corners are inside the bounds: %v", p)
-				}
-				switch {
-				case x1 > x2 && y1 > y2:
-					lab("Fill:both-swapped")
-				case x1 > x2:
-					lab("Fill:x-swapped")
-				case y1 > y2:
-					lab("Fill:y-swapped")
-				default:
-					lab("Fill:sorted")
-				}
-				if x1 > x2 {
-					x1, x2 = x2, x1
-				}
-				if y1 > y2 {
-					y1, y2 = y2, y1
-				}
-				for y := y1; y <= y2; y++ {
-					for x := x1; x <= x2; x++ {
-						m.cells[y*w+x] = v
-					}
-				}
-				wrote(x1, y1, x2, y2)
-				switch {
-				case x1 == x2 && y1 == y2:
-					lab("Fill:single-cell")
-				case x1 == 0 && y1 == 0 && x2 == w-1 && y2 == h-1:
-					lab("Fill:whole-grid")
-				case y1 == y2:
-					lab("Fill:one-row")
-				case x1 == x2:
-					lab("Fill:one-column")
-				default:
-					lab("Fill:proper-rectangle")
-				}
-				switch n := x2 - x1 + 1; {
-				case n > 4096:
-					lab("Fill:row-width>4096")
-				case n > 256:
-					lab("Fill:row-width 257..4096")
-				case n > 32:
-					lab("Fill:row-width 33..256")
-				}
-			} else {
-				if p == nil {
-					return fail("did not panic although a corner is outside the bounds")
-				}
-				oobLabels(&out, "Fill", w, h, []int{x1, x2}, []int{y1, y2})
-			}
-		case OpClone:
-			callf = func() string { return "Clone()" }
-			var cl arrays.Array2D[T]
-			if p := try(func() { cl = a.Clone() }); p != nil {
-				return fail("panicked: %v", p)
-			}
-			if cl.Width() != w || cl.Height() != h {
-				return fail("clone has Width,Height = %d,%d", cl.Width(), cl.Height())
-			}
-			if df := diff(cl, m, d); df != "" {
-				return fail("clone differs from the original: %s", df)
-			}
-			if len(wits) >= 2 {
-				wits = wits[1:]
-			}
-			if mod(op.B, 2) == 0 {
-				wits = append(wits, witness[T]{a: cl, m: m.clone(), step: step})
-				lab("Clone:continue-on-original")
-			} else {
-				wm := m.clone()
-				wits = append(wits, witness[T]{a: a, m: wm, step: step, orig: true})
-				// slices taken from the original stay windows of the original
-				for i := range keeps {
-					if keeps[i].m == m {
-						keeps[i].m = wm
-					}
-				}
-				a = cl
-				lab("Clone:continue-on-clone")
-			}
-		case OpString:
-			callf = func() string { return "String()" }
+		}
+	}
+	// end of case: String and dimensions agree with the model, on both arrays
+	endf := func() string { return "the end of the script" }
+	for i := 0; i < 2; i++ {
+		if w*h <= stringCells {
 			var s string
 			if p := try(func() { s = a.String() }); p != nil {
-				return fail("panicked: %v", p)
+				return pbt.Fail("%s array: %sString() panicked: %v; history: %s", shape, pfx, p, history())
 			}
-			if want := m.String(); s != want {
-				return fail("= %s, want %s", clip(s), clip(want))
+			want := m.String()
+			if s != want {
+				return pbt.Fail("%s array: %sString() = %s, want %s; history: %s", shape, pfx, clip(s), clip(want), history())
 			}
-			lab("String")
-		case OpDims:
-			callf = func() string { return "Width(),Height()" }
-			if a.Width() != w || a.Height() != h {
-				return fail("= %d,%d", a.Width(), a.Height())
-			}
-			lab("Dims")
+			keepStr(s, want, pfx+"String() at the end of the script")
 		}
-		out.Evals++
-		if df := verify(step, callf); df != "" {
+		if a.Width() != w || a.Height() != h {
+			return pbt.Fail("%s array: Width,Height = %d,%d at the end; history: %s", shape, a.Width(), a.Height(), history())
+		}
+		if other == nil {
+			break
+		}
+		o := &side[T]{a: a, m: m, w: w, h: h, shape: shape, pfx: pfx}
+		a, m, w, h, shape, pfx = other.a, other.m, other.w, other.h, other.shape, other.pfx
+		other = o
+	}
+	if len(strs) > 0 {
+		if df := verify(step+1, endf); df != "" {
 			return pbt.Fail("%s", df)
 		}
-		if len(calls) < 40 {
-			calls = append(calls, callf)
-		}
 	}
-	// end of case: String and dimensions agree with the model
-	if w*h <= stringCells {
-		var s string
-		if p := try(func() { s = a.String() }); p != nil {
-			return pbt.Fail("%s array: String() panicked: %v; history: %s", shape, p, history())
-		}
-		if want := m.String(); s != want {
-			return pbt.Fail("%s array: String() = %s, want %s; history: %s", shape, clip(s), clip(want), history())
-		}
-	}
-	if a.Width() != w || a.Height() != h {
-		return pbt.Fail("%s array: Width,Height = %d,%d at the end; history: %s", shape, a.Width(), a.Height(), history())
-	}
+	w, h = c.W, c.H
 	out.NonTrivial = w != h && w >= 2 && h >= 2 && lastRow && lastCol
 	if w != h && w >= 2 && h >= 2 {
 		switch {
@@ -788,7 +980,7 @@ func mod(a, m int) int {
 
 // scripts builds the canonical op scripts for one shape; nspecial is the number of special values of the element type.
 // lite leaves out the scripts that only vary coordinates (get, fill-oob, all fill scripts but the one starting in the last row).
-func scripts(w, h, nspecial int, lite bool, yield func(name string, ops []Op) bool) bool {
+func scripts(w, h, nspecial int, lite, gc bool, yield func(name string, ops []Op) bool) bool {
 	var setAll []Op
 	for y := 0; y < h; y++ {
 		for x := 0; x < w; x++ {
@@ -910,10 +1102,13 @@ func scripts(w, h, nspecial int, lite bool, yield func(name string, ops []Op) bo
 	if !yield("clone", ops) {
 		return false
 	}
-	// keep: slices taken from rows and from a span, kept by the caller over Clone, Fill and Set on both sides
+	// keep: slices taken from rows and from a span and a String result, kept by the caller over Clone, a garbage collection, Fill and Set on both sides
 	if w > 0 && h > 0 {
 		ops = []Op{{K: OpRow, Y1: 0}, {K: OpRowSpan, X1: w / 2, X2: w - 1, Y1: h - 1}, {K: OpRow, Y1: h / 2}}
-		ops = append(ops, Op{K: OpFill, X1: 0, Y1: 0, X2: w - 1, Y2: h - 1}, Op{K: OpClone, B: 0})
+		ops = append(ops, Op{K: OpFill, X1: 0, Y1: 0, X2: w - 1, Y2: h - 1}, Op{K: OpString}, Op{K: OpClone, B: 0})
+		if gc {
+			ops = append(ops, Op{K: OpGC})
+		}
 		ops = append(ops, setAll...)
 		ops = append(ops, Op{K: OpClone, B: 1}, Op{K: OpFill, X1: 0, Y1: 0, X2: w - 1, Y2: h - 1, V: -1})
 		ops = append(ops, setAll...)
@@ -922,6 +1117,41 @@ func scripts(w, h, nspecial int, lite bool, yield func(name string, ops []Op) bo
 		}
 	}
 	return true
+}
+
+// twoScript is the canonical script for a case with two arrays (w x h and w2 x h2): every call is made on one of
+// them and then on the other, with the same arguments (what is outside the bounds there must panic there).
+func twoScript(w, h, w2, h2 int, gc bool) []Op {
+	var ops []Op
+	add := func(o ...Op) { ops = append(ops, o...) }
+	both := func(o Op) { add(o, Op{K: OpSwitch}, o) } // the next call starts on the other array
+	add(Op{K: OpFill, X1: 0, Y1: 0, X2: w - 1, Y2: h - 1}, Op{K: OpRow, Y1: h - 1}, Op{K: OpString}, Op{K: OpSwitch})
+	add(Op{K: OpFill, X1: w2 - 1, Y1: h2 - 1, X2: 0, Y2: 0}, Op{K: OpRow, Y1: 0}, Op{K: OpString}, Op{K: OpClone, B: 0}, Op{K: OpSwitch})
+	add(Op{K: OpClone, B: 1})
+	mw, mh := w, h
+	if w2 > mw {
+		mw = w2
+	}
+	if h2 > mh {
+		mh = h2
+	}
+	for y := 0; y < mh; y++ { // every coordinate that is inside one of the two grids
+		for x := 0; x < mw; x++ {
+			if (x < w && y < h) || (x < w2 && y < h2) {
+				both(Op{K: OpSet, X1: x, Y1: y})
+			}
+		}
+	}
+	if gc {
+		add(Op{K: OpGC})
+	}
+	both(Op{K: OpRowSpan, X1: 0, X2: mw / 2, Y1: mh / 2})
+	both(Op{K: OpString})
+	both(Op{K: OpFill, X1: mw / 2, Y1: mh - 1, X2: 0, Y2: 0, V: -1})
+	both(Op{K: OpFill, X1: w - 1, Y1: h - 1, X2: w2 - 1, Y2: h2 - 1})
+	both(Op{K: OpRow, Y1: 0})
+	both(Op{K: OpGet, X1: mw - 1, Y1: mh - 1})
+	return ops
 }
 
 // jagVariants returns the canonical jagged inputs for one shape.
@@ -982,9 +1212,28 @@ func enumShape(T string, w, h int, lite bool, yield func(Case) bool) bool {
 			return false
 		}
 	}
+	// two arrays side by side: the transposed shape (w+1 x h for squares), and the same shape built from the first one's rows
+	w2, h2 := h, w
+	if w == h {
+		w2 = w + 1
+	}
+	gc := (w+2*h)%7 == 3 // a garbage collection costs milliseconds: in the scripts of every seventh shape
+	for k, t := range []Second{{W: w2, H: h2, Ctor: 0}, {W: w, H: h, Ctor: 2}, {W: w2, H: h2, Ctor: 1, FillV: -1}, {W: w2, H: h2, Ctor: 2}} {
+		if lite && k == 3 {
+			continue
+		}
+		t := t
+		c := Case{T: T, W: w, H: h, Ctor: (k + 1) % 3, Two: &t, Ops: twoScript(w, h, t.W, t.H, gc)}
+		if c.Ctor == 2 {
+			c.Jag = jv[len(jv)-1]
+		}
+		if !yield(c) {
+			return false
+		}
+	}
 	// every script on every constructor
 	i := 0
-	return scripts(w, h, nsp, lite, func(name string, ops []Op) bool {
+	return scripts(w, h, nsp, lite, gc, func(name string, ops []Op) bool {
 		for ctor := 0; ctor < 3; ctor++ {
 			c := Case{T: T, W: w, H: h, Ctor: ctor, Ops: ops}
 			if ctor == 1 && nsp > 0 {
@@ -1024,7 +1273,10 @@ var specEnum = pbt.Register(&pbt.Spec[Case]{
 		"set (every cell, then every coordinate of the ring -2..w+1 x -2..h+1 outside), get (that whole ring and the inside), row (every y in " +
 		"-2..h+1), span (every x1 <= x2 in every row + every combination with a coordinate just outside), fill (every ordered pair of corners, " +
 		"i.e. all four corner orders, + corners just outside), special (each special value written by Fill and by Set over other values and " +
-		"overwritten again), clone (mutate either side against a frozen witness), keep (returned slices kept over Clone/Fill/Set on both sides); " + rule,
+		"overwritten again), clone (mutate either side against a frozen witness), keep (returned slices and a String result kept over Clone/Fill/Set on both sides, on the shapes with (w+2h) mod 7 = 3 also over a runtime.GC()); and with TWO live " +
+		"arrays (the second one transposed - (w+1) x h for squares - built by New2D, by New2DFilled with the zero value, from the Row windows of the first; or of the same shape built from the " +
+		"first one's Row windows) the script two: Set at every coordinate that lies in one of the two grids, RowSpan, String, two Fills, Row, Get and Clone made on one array and then with the same arguments " +
+		"on the other (on the shapes with (w+2h) mod 7 = 3 with a runtime.GC() in the middle); " + rule,
 	Enum: func(shard, shards int, tier string, yield func(Case) bool) { enumerate(tier, yield) },
 	Run:  Run, Exhaustive: true,
 })
@@ -1085,7 +1337,71 @@ func genCase(t *rapid.T) Case {
 		c.FillV = -1 - uni(nsp, "fillv")
 	}
 	if c.Ctor == 2 {
-		c.Jag = rapid.SliceOfN(rapid.IntRange(-1, w+3), 0, h+3).Draw(t, "jag")
+		switch jk := uni(12, "jagkind"); {
+		case jk < 6: // separately allocated rows
+			c.Jag = rapid.SliceOfN(rapid.IntRange(-1, w+3), 0, h+3).Draw(t, "jag")
+			if jk >= 4 {
+				c.Spare = 1 + uni(w+4, "spare")
+			}
+		default: // views of one buffer: the rows of a flat matrix, then a few of them moved or shortened
+			stride := []int{w, w, w, w + 1, w + 2, w - 1, 2 * w}[uni(7, "stride")]
+			if stride < 0 {
+				stride = 0
+			}
+			nrows := h + []int{0, 0, 0, 1, 2, -1}[uni(6, "nrows")]
+			if nrows < 0 {
+				nrows = 0
+			}
+			brows := nrows + uni(2, "bufrows")
+			if brows < h {
+				brows = h
+			}
+			v := &View{Stride: stride, Rows: brows, Tail: uni(4, "tail"), Clip: rapid.Bool().Draw(t, "clip"), Via: rapid.Bool().Draw(t, "via")}
+			c.Jag, c.JagN = []int{[]int{w, w, w, w + 1, stride}[uni(5, "rowlen")]}, nrows
+			if nrows > 0 {
+				for i, n := 0, uni(4, "moves"); i < n; i++ {
+					r := uni(nrows, "moved_row")
+					var off int
+					switch uni(4, "move_kind") {
+					case 0, 1: // where another row is
+						off = uni(brows+1, "move_to") * stride
+					case 2: // a value earlier or later
+						off = r*stride + []int{-1, 1}[uni(2, "shift")]
+					default:
+						off = uni(stride*brows+v.Tail+1, "move_off")
+					}
+					v.Set = append(v.Set, [2]int{r, off})
+				}
+				for i, n := 0, uni(3, "shorts"); i < n; i++ {
+					c.JagSet = append(c.JagSet, [2]int{uni(nrows, "short_row"), rapid.IntRange(-1, w+2).Draw(t, "short_len")})
+				}
+			}
+			c.View = v
+		}
+	}
+	// a second array next to the first
+	withTwo := uni(5, "two") == 0
+	if withTwo {
+		t2 := &Second{W: dim("w2"), H: dim("h2"), Ctor: uni(3, "ctor2")}
+		if uni(3, "two_same_shape") == 0 {
+			t2.W, t2.H = w, h
+		} else if uni(4, "two_transposed") == 0 {
+			t2.W, t2.H = h, w
+		}
+		if t2.Ctor == 1 && nsp > 0 && uni(3, "fill2_special") == 0 {
+			t2.FillV = -1 - uni(nsp, "fillv2")
+		}
+		if w*h > 1024 { // keep the cost of the whole-grid comparisons bounded
+			t2.W, t2.H = 1+uni(8, "w2s"), 1+uni(8, "h2s")
+		}
+		c.Two = t2
+	}
+	withGC := uni(500, "gc") == 0
+	if uni(40, "procs") == 0 {
+		c.Procs = []int{1, 2, 3, 5, 6, 7}[uni(6, "nprocs")]
+	}
+	if w*h <= 64 && uni(20, "loop") == 0 {
+		c.Loop = 1 + uni(3, "loops")
 	}
 	// coordinate generators: in = inside the bounds (biased to the last and first index), out = outside
 	coord := func(n, stride int, valid bool, name string) int {
@@ -1105,6 +1421,12 @@ func genCase(t *rapid.T) Case {
 		return rapid.SampledFrom([]int{n, -1, n + 1, -2, n, n + 100, -1000}).Draw(t, name+"_out")
 	}
 	kinds := []int{OpSet, OpSet, OpSet, OpSet, OpGet, OpGet, OpRow, OpRow, OpRowSpan, OpRowSpan, OpRowSpan, OpFill, OpFill, OpFill, OpClone, OpString, OpDims}
+	if withTwo {
+		kinds = append(kinds, OpSwitch, OpSwitch, OpSwitch, OpSwitch)
+	}
+	if withGC {
+		kinds = append(kinds, OpGC)
+	}
 	nops := uni(maxOps, "nops")
 	c.Ops = rapid.SliceOfN(rapid.Custom(func(t *rapid.T) Op {
 		op := Op{K: rapid.SampledFrom(kinds).Draw(t, "k")}
@@ -1152,13 +1474,16 @@ var specRand = pbt.Register(&pbt.Spec[Case]{
 	Rule: "rapid: shape classes: 78 % w,h near-uniform on 0..7 (thorough 0..12) with 0 made rarer (<= 30 operations); 10 % 1..24 x 1..24 (<= 15 operations); 7 % one side " +
 		"in {2^k-1, 2^k, 2^k+1 : k = 4..8} and the other 1..33 (<= 9 operations); 5 % 1..4 by up to 9000 cells, wide or tall (<= 7 operations); element type int in 3/4 " +
 		"of the cases, else one of the types of C08.types; constructor uniform (New2DFilled with a special value - zero value, -0.0, nil, ... - in 1/3 of its cases), " +
-		"jagged input 0..h+3 rows of length -1(nil)..w+3; 80 % of " +
+		"jagged input: half of the cases 0..h+3 separately allocated rows of length -1(nil)..w+3 (a third of them with 1..w+4 values of spare capacity), the other half views of one buffer " +
+		"(stride w, w+1, w+2, w-1 or 2w; h-1..h+2 rows of length w, w+1 or the stride; 0..3 rows moved to another row's place, a value earlier/later or anywhere; 0..2 rows of another length; " +
+		"plain or three-index slices; flat buffer or another Array2D's windows); in 1/5 of the cases a second array (same shape 1/3, transposed, or another small shape; any of its three " +
+		"constructors) and switch operations; in 1/500 runtime.GC() among the operations; in 1/40 GOMAXPROCS 1, 2, 3, 5, 6 or 7; in 1/20 of the small cases the script is run 2..4 times; 80 % of " +
 		"the operations have every coordinate inside (biased to the last/first index), the rest draw each coordinate outside with probability 1/2: " +
 		"size, -1, size+1, -2, far away, and in 1/4 of these an extreme value (MaxInt, MinInt, +-2^k, +-2^k+-1 for k = 31, 32, 62, 63, the " +
 		"values around MaxInt/stride and 2^64/stride where the flat index overflows); 1/6 of the Set/Fill write a special value; in 1/10 of the cases " +
 		"one operation gets a y solved so that x + y*width overflows to an index inside the backing store; " + rule,
 	Gen: genCase,
-	Run: Run, Quick: 40000, Thorough: 150000,
+	Run: Run, Quick: 32000, Thorough: 150000,
 })
 
 func TestC08Enum(t *testing.T) { pbt.Check(t, specEnum) }
